@@ -225,6 +225,27 @@ impl Prop for PGlob {
                 subjects.push(s);
             }
         }
+        // which non-ASCII characters are in [:alpha:] etc. is a matter of locale: keep such cases ASCII
+        let has_class = pat.windows(2).any(|w| w == [91, 58]);
+        if has_class {
+            for s in subjects.iter_mut() {
+                for c in s.iter_mut() {
+                    if *c >= 128 {
+                        *c = 122;
+                    }
+                }
+            }
+            subjects.dedup();
+            let mut seen: Vec<Vec<u32>> = vec![];
+            subjects.retain(|s| {
+                if seen.contains(s) {
+                    false
+                } else {
+                    seen.push(s.clone());
+                    true
+                }
+            });
+        }
         json!({"pat": pat, "fold": rng.chance(1, 3), "subjects": subjects})
     }
 
